@@ -1,7 +1,953 @@
-//! C17 — not built yet.
-use lv_common::Ctx;
+//! C17 — BlockRanges behaves as a set of heights.
+//!
+//! (a) exhaustive: every subset of {1..10} x every operation x every argument over 0..=11/12, judged
+//!     against a u64 bitmask model;
+//! (b) random: histories of operations over four registers of u64-wide sets, judged against the
+//!     independent u128 interval-list model `lv_gen::ranges::ISet`.
+//! After every operation the representation invariant is checked: sorted, disjoint, non-adjacent,
+//! no height 0, no empty range.
+use lumina_node::block_ranges::{BlockRange, BlockRanges, BlockRangesError};
+use lumina_node::verif::block_ranges as hk;
+use lv_common::prelude::*;
+use lv_gen::ranges::{HMAX, ISet, RangesSpec, build_ranges, count_strategy, height_strategy, ranges_spec_strategy};
 
-pub fn run(_ctx: &mut Ctx) {
-    eprintln!("C17: check not built yet");
-    std::process::exit(2);
+// ------------------------------------------------------------------------------------------------
+// shared helpers (also used by c18 / c24)
+// ------------------------------------------------------------------------------------------------
+
+/// raw view of the representation (NOT normalised)
+pub fn to_iset(r: &BlockRanges) -> ISet {
+    ISet(r.as_ref().iter().map(|x| (*x.start() as u128, *x.end() as u128)).collect())
+}
+
+/// representation invariant: sorted, disjoint, non-adjacent, no 0, no empty range
+pub fn invariant(r: &BlockRanges) -> Result<(), String> {
+    let v = r.as_ref();
+    for (i, x) in v.iter().enumerate() {
+        if *x.start() == 0 {
+            return Err(format!("range #{i} {x:?} contains height 0 in {v:?}"));
+        }
+        if x.start() > x.end() {
+            return Err(format!("range #{i} {x:?} is empty in {v:?}"));
+        }
+        if i > 0 {
+            let p = &v[i - 1];
+            if (*p.end() as u128) + 1 >= *x.start() as u128 {
+                return Err(format!("ranges #{} {p:?} and #{i} {x:?} are unsorted / overlapping / adjacent in {v:?}", i - 1));
+            }
+        }
+    }
+    Ok(())
+}
+
+/// Build a value through the type's own operations: `new()` + `insert_relaxed` of the maximal runs.
+pub fn build_from_model(m: &ISet) -> BlockRanges {
+    let mut r = BlockRanges::new();
+    for &(a, b) in &m.0 {
+        r.insert_relaxed(a as u64..=b as u64).expect("model runs are valid ranges");
+    }
+    r
+}
+
+fn check_value(obs: &mut Obs, op: &str, got: &BlockRanges, want: &ISet, ctx: impl Fn() -> String) -> Result<(), Failure> {
+    if let Err(e) = invariant(got) {
+        obs.fail(&format!("C17:{op}:invariant"), format!("after {op}: {e}; {}", ctx()))?;
+    }
+    let g = to_iset(got);
+    if ISet::normalise(g.0.clone()) != *want {
+        obs.fail(&format!("C17:{op}:result"), format!("{op}: got {:?}, the set operation gives {:?}; {}", got.as_ref(), want.0, ctx()))?;
+    }
+    Ok(())
+}
+
+fn check_eq<T: PartialEq + std::fmt::Debug>(obs: &mut Obs, op: &str, got: T, want: T, ctx: impl Fn() -> String) -> Result<(), Failure> {
+    if got != want {
+        obs.fail(&format!("C17:{op}:result"), format!("{op}: got {got:?}, the set operation gives {want:?}; {}", ctx()))?;
+    }
+    Ok(())
+}
+
+/// `partitions`: None iff empty; left < middle < right; disjoint union = S; balanced.
+fn check_partitions(obs: &mut Obs, r: &BlockRanges, m: &ISet, ctx: impl Fn() -> String) -> Result<Option<(BlockRanges, u64, BlockRanges)>, Failure> {
+    let p = hk::partitions(r);
+    match &p {
+        None => {
+            if !m.is_empty() {
+                obs.fail("C17:partitions:result", format!("partitions returned None for non-empty {:?}; {}", m.0, ctx()))?;
+            }
+        }
+        Some((l, mid, rt)) => {
+            if m.is_empty() {
+                obs.fail("C17:partitions:result", format!("partitions returned Some for the empty set; {}", ctx()))?;
+                return Ok(p);
+            }
+            for (n, x) in [("left", l), ("right", rt)] {
+                if let Err(e) = invariant(x) {
+                    obs.fail("C17:partitions:invariant", format!("partitions {n}: {e}; {}", ctx()))?;
+                }
+            }
+            let (lm, rm) = (ISet::normalise(to_iset(l).0), ISet::normalise(to_iset(rt).0));
+            let mid128 = *mid as u128;
+            let ordered = lm.max().is_none_or(|x| x < mid128) && rm.min().is_none_or(|x| x > mid128);
+            let want_l = m.inter(&ISet::normalise(vec![(0, mid128.saturating_sub(1))]));
+            let want_l = if mid128 == 0 { ISet::new() } else { want_l };
+            let want_r = m.inter(&ISet::single(mid128 + 1, HMAX + 1));
+            let union_ok = m.contains(mid128) && lm == want_l && rm == want_r;
+            let (ll, rl) = (lm.len(), rm.len());
+            let balanced = ll.abs_diff(rl) <= 1;
+            if !(ordered && union_ok && balanced) {
+                obs.fail(
+                    "C17:partitions:result",
+                    format!(
+                        "partitions of {:?} = ({:?}, {mid}, {:?}): ordered={ordered} disjoint-union-is-S={union_ok} balanced={balanced} (|left|={ll}, |right|={rl}); {}",
+                        m.0,
+                        l.as_ref(),
+                        rt.as_ref(),
+                        ctx()
+                    ),
+                )?;
+            }
+        }
+    }
+    Ok(p)
+}
+
+fn tailn_checked(obs: &mut Obs, r: &BlockRanges, n: u64, m: &ISet) -> Result<Option<BlockRanges>, Failure> {
+    match lv_common::no_panic(|| hk::tailn(r, n)) {
+        Ok(t) => {
+            let want = m.tailn(n as u128);
+            if invariant(&t).is_err() || ISet::normalise(to_iset(&t).0) != want {
+                obs.fail("C17:tailn", format!("tailn({n}) of {:?} = {:?}, the {n} lowest elements are {:?}", r.as_ref(), t.as_ref(), want.0))?;
+                return Ok(None);
+            }
+            Ok(Some(t))
+        }
+        Err(p) => {
+            obs.fail("C17:tailn", format!("tailn({n}) of {:?} panicked: {p}; the {n} lowest elements are {:?}", r.as_ref(), m.tailn(n as u128).0))?;
+            Ok(None)
+        }
+    }
+}
+
+fn headn_checked(obs: &mut Obs, r: &BlockRanges, n: u64, m: &ISet) -> Result<Option<BlockRanges>, Failure> {
+    match lv_common::no_panic(|| hk::headn(r, n)) {
+        Ok(t) => {
+            let want = m.headn(n as u128);
+            if invariant(&t).is_err() || ISet::normalise(to_iset(&t).0) != want {
+                obs.fail("C17:headn", format!("headn({n}) of {:?} = {:?}, the {n} highest elements are {:?}", r.as_ref(), t.as_ref(), want.0))?;
+                return Ok(None);
+            }
+            Ok(Some(t))
+        }
+        Err(p) => {
+            obs.fail("C17:headn", format!("headn({n}) of {:?} panicked: {p}; the {n} highest elements are {:?}", r.as_ref(), m.headn(n as u128).0))?;
+            Ok(None)
+        }
+    }
+}
+
+fn range_as_iset(r: &BlockRange) -> ISet {
+    ISet::normalise(vec![(*r.start() as u128, *r.end() as u128)])
+}
+
+// ------------------------------------------------------------------------------------------------
+// (a) exhaustive small universe, bitmask model
+// ------------------------------------------------------------------------------------------------
+
+const U: u32 = 10; // heights 1..=10
+
+fn mask_of_index(i: u16) -> u64 {
+    (i as u64) << 1
+}
+
+fn range_mask(a: u64, b: u64) -> u64 {
+    if a > b {
+        return 0;
+    }
+    let hi = if b >= 63 { u64::MAX } else { (1u64 << (b + 1)) - 1 };
+    hi & !((1u64 << a) - 1)
+}
+
+fn build_small(m: u64) -> BlockRanges {
+    build_from_model(&ISet::from_mask(m))
+}
+
+fn dg(m: u64, op: u64, a: u64, b: u64) -> u64 {
+    (m << 40) | (op << 32) | (a << 16) | b
+}
+
+fn small_case(idx: &u16, obs: &mut Obs) -> Result<(), Failure> {
+    let m = mask_of_index(*idx);
+    let ms = ISet::from_mask(m);
+    let r = build_small(m);
+    let n_el = m.count_ones() as u64;
+    let ctx = || format!("S={:?}", ISet::from_mask(m).0);
+
+    // construction: maximal runs, ascending singles, descending singles, from_vec of the canonical list
+    obs.eval(None);
+    check_value(obs, "construct", &r, &ms, ctx)?;
+    let mut asc = BlockRanges::new();
+    let mut desc = BlockRanges::new();
+    for h in 1..=U as u64 {
+        if m >> h & 1 == 1 {
+            asc.insert_relaxed(h..=h).unwrap();
+        }
+        let g = U as u64 + 1 - h;
+        if m >> g & 1 == 1 {
+            desc.insert_relaxed(g..=g).unwrap();
+        }
+    }
+    check_eq(obs, "construct-singles-asc", &asc, &r, ctx)?;
+    check_eq(obs, "construct-singles-desc", &desc, &r, ctx)?;
+    let fv = BlockRanges::from_vec(r.clone().into_inner()).map_err(|e| Failure::new("C17:from_vec:result", format!("from_vec rejected its own canonical list: {e}; {}", ctx())))?;
+    check_eq(obs, "from_vec", &fv, &r, ctx)?;
+
+    // membership, length, emptiness, head, tail
+    for h in 0..=12u64 {
+        let near = (m >> h & 1 == 1) || (h > 0 && m >> (h - 1) & 1 == 1) || m >> (h + 1) & 1 == 1;
+        obs.eval(near.then(|| dg(m, 1, h, 0)));
+        check_eq(obs, "contains", r.contains(h), m >> h & 1 == 1, ctx)?;
+    }
+    obs.eval(None);
+    check_eq(obs, "len", r.len(), n_el, ctx)?;
+    check_eq(obs, "is_empty", r.is_empty(), m == 0, ctx)?;
+    check_eq(obs, "head", r.head(), (m != 0).then(|| 63 - m.leading_zeros() as u64), ctx)?;
+    check_eq(obs, "tail", r.tail(), (m != 0).then(|| m.trailing_zeros() as u64), ctx)?;
+
+    // insert / remove of every range [a,b], a,b in 0..=11 (invalid ones included)
+    for a in 0..=11u64 {
+        for b in 0..=11u64 {
+            let valid = a >= 1 && a <= b;
+            let rm = range_mask(a, b);
+            let touch = valid && ms.runs_touching(a as u128, b as u128) > 0;
+            for (op, opn) in [(2u64, "insert_relaxed"), (3u64, "remove_relaxed")] {
+                obs.eval(touch.then(|| dg(m, op, a, b)));
+                let mut x = r.clone();
+                let res = if op == 2 { x.insert_relaxed(a..=b) } else { x.remove_relaxed(a..=b) };
+                let c2 = || format!("S={:?} arg={a}..={b}", ISet::from_mask(m).0);
+                if valid {
+                    if let Err(e) = &res {
+                        obs.fail(&format!("C17:{opn}:result"), format!("{opn} of a valid range failed: {e}; {}", c2()))?;
+                    }
+                    let want = if op == 2 { m | rm } else { m & !rm };
+                    check_value(obs, opn, &x, &ISet::from_mask(want), c2)?;
+                    if op == 2 {
+                        let k = ms.runs_touching(a as u128, b as u128);
+                        if k >= 2 {
+                            obs.label("merge-three");
+                        }
+                        if k >= 3 {
+                            obs.label("merge-3-existing-runs");
+                        }
+                    } else if ms.strictly_inside_run(a as u128, b as u128) {
+                        obs.label("split-middle");
+                    }
+                } else {
+                    obs.label("invalid-range-arg");
+                    match &res {
+                        Err(BlockRangesError::InvalidBlockRange(g)) if *g == (a..=b) => {}
+                        other => obs.fail(&format!("C17:{opn}:invalid-arg"), format!("{opn} of invalid {a}..={b} returned {other:?}; {}", c2()))?,
+                    }
+                    check_eq(obs, &format!("{opn}-invalid-unchanged"), &x, &r, c2)?;
+                }
+            }
+        }
+    }
+
+    // union / difference / intersection with every other subset
+    for ti in 0..(1u16 << U) {
+        let t = mask_of_index(ti);
+        let tr = build_small(t);
+        let c2 = || format!("S={:?} T={:?}", ISet::from_mask(m).0, ISet::from_mask(t).0);
+        let touch_u = m != 0 && t != 0 && ((m & t) != 0 || (m & (t << 1)) != 0 || (m & (t >> 1)) != 0);
+        let overlap = (m & t) != 0;
+        obs.eval(touch_u.then(|| dg(m, 4, t, 0)));
+        let u = if ti & 1 == 0 { r.clone() + &tr } else { r.clone() | &tr };
+        check_value(obs, "union", &u, &ISet::from_mask(m | t), c2)?;
+        obs.eval(overlap.then(|| dg(m, 5, t, 0)));
+        let d = r.clone() - &tr;
+        check_value(obs, "difference", &d, &ISet::from_mask(m & !t), c2)?;
+        obs.eval(overlap.then(|| dg(m, 6, t, 0)));
+        let i = r.clone() & &tr;
+        check_value(obs, "intersection", &i, &ISet::from_mask(m & t), c2)?;
+        // the by-value / assign variants must agree (spot: one operand in 16)
+        if ti % 16 == (*idx % 16) {
+            let mut a1 = r.clone();
+            a1 += tr.clone();
+            let mut a2 = r.clone();
+            a2 |= &tr;
+            check_eq(obs, "union-variants", (&a1, &a2, &(r.clone() + tr.clone()), &(r.clone() | tr.clone())), (&u, &u, &u, &u), c2)?;
+            let mut s1 = r.clone();
+            s1 -= tr.clone();
+            check_eq(obs, "difference-variants", (&s1, &(r.clone() - tr.clone())), (&d, &d), c2)?;
+            let mut i1 = r.clone();
+            i1 &= tr.clone();
+            check_eq(obs, "intersection-variants", (&i1, &(r.clone() & tr.clone())), (&i, &i), c2)?;
+        }
+    }
+
+    // complement within [1, u64::MAX]
+    obs.eval((m != 0).then(|| dg(m, 7, 0, 0)));
+    let not = !r.clone();
+    check_value(obs, "complement", &not, &ms.complement(), ctx)?;
+    check_value(obs, "complement-twice", &!not.clone(), &ms, ctx)?;
+
+    // pop_head / pop_tail to empty, iterator in both directions, alternating
+    {
+        let mut x = r.clone();
+        let mut mm = m;
+        loop {
+            obs.eval((mm != 0).then(|| dg(m, 8, mm, 0)));
+            let want = (mm != 0).then(|| 63 - mm.leading_zeros() as u64);
+            let got = x.pop_head();
+            check_eq(obs, "pop_head", got, want, ctx)?;
+            if let Some(h) = want {
+                mm &= !(1 << h);
+            }
+            check_value(obs, "pop_head", &x, &ISet::from_mask(mm), ctx)?;
+            if want.is_none() {
+                break;
+            }
+        }
+        let mut x = r.clone();
+        let mut mm = m;
+        loop {
+            obs.eval((mm != 0).then(|| dg(m, 9, mm, 0)));
+            let want = (mm != 0).then(|| mm.trailing_zeros() as u64);
+            let got = x.pop_tail();
+            check_eq(obs, "pop_tail", got, want, ctx)?;
+            if let Some(h) = want {
+                mm &= !(1 << h);
+            }
+            check_value(obs, "pop_tail", &x, &ISet::from_mask(mm), ctx)?;
+            if want.is_none() {
+                break;
+            }
+        }
+        let elems: Vec<u64> = (0..64).filter(|h| m >> h & 1 == 1).collect();
+        obs.eval(None);
+        check_eq(obs, "iter-forward", r.clone().collect::<Vec<_>>(), elems.clone(), ctx)?;
+        let mut rev = elems.clone();
+        rev.reverse();
+        check_eq(obs, "iter-backward", r.clone().rev().collect::<Vec<_>>(), rev, ctx)?;
+        let mut x = r.clone();
+        let (mut lo, mut hi) = (0usize, elems.len());
+        let mut flip = false;
+        while lo < hi {
+            if flip {
+                check_eq(obs, "iter-alternating", x.next_back(), Some(elems[hi - 1]), ctx)?;
+                hi -= 1;
+            } else {
+                check_eq(obs, "iter-alternating", x.next(), Some(elems[lo]), ctx)?;
+                lo += 1;
+            }
+            flip = !flip;
+        }
+        check_eq(obs, "iter-alternating-end", (x.next(), x.next_back()), (None, None), ctx)?;
+    }
+
+    // headn / tailn for n in 0..=12
+    for n in 0..=12u64 {
+        let cut = n > 0 && n < n_el;
+        obs.eval(cut.then(|| dg(m, 10, n, 0)));
+        headn_checked(obs, &r, n, &ms)?;
+        obs.eval(cut.then(|| dg(m, 11, n, 0)));
+        tailn_checked(obs, &r, n, &ms)?;
+    }
+
+    // edges
+    obs.eval((m != 0).then(|| dg(m, 12, 0, 0)));
+    let em = m & (!(m << 1) | !(m >> 1));
+    check_value(obs, "edges", &hk::edges(&r), &ISet::from_mask(em), ctx)?;
+
+    // left_of / right_of for h in 1..=11 (h = 0 is not a height: debug_assert precondition)
+    for h in 1..=11u64 {
+        obs.eval((m != 0).then(|| dg(m, 13, h, 0)));
+        let below = m & ((1u64 << h) - 1);
+        let above = m & !((1u64 << (h + 1)) - 1);
+        let c2 = || format!("S={:?} h={h}", ISet::from_mask(m).0);
+        check_eq(obs, "left_of", hk::left_of(&r, h), (below != 0).then(|| 63 - below.leading_zeros() as u64), c2)?;
+        obs.eval((m != 0).then(|| dg(m, 14, h, 0)));
+        check_eq(obs, "right_of", hk::right_of(&r, h), (above != 0).then(|| above.trailing_zeros() as u64), c2)?;
+    }
+
+    // partitions (also iterated the way the pruner's binary search does: keep descending into a side)
+    obs.eval((n_el >= 2).then(|| dg(m, 15, 0, 0)));
+    if let Some((l, _, rt)) = check_partitions(obs, &r, &ms, ctx)? {
+        for (side, mut cur) in [(0u64, l), (1u64, rt)] {
+            let mut depth = 0;
+            loop {
+                let cm = ISet::normalise(to_iset(&cur).0);
+                obs.eval((cm.len() >= 2).then(|| dg(m, 16 + side, cm.to_mask().unwrap_or(0), depth)));
+                match check_partitions(obs, &cur, &cm, ctx)? {
+                    Some((l2, _, r2)) => cur = if (depth + side) % 2 == 0 { l2 } else { r2 },
+                    None => break,
+                }
+                depth += 1;
+                if depth > 20 {
+                    obs.fail("C17:partitions:result", format!("repeated partitioning does not terminate; {}", ctx()))?;
+                    break;
+                }
+            }
+        }
+    }
+
+    // serde round trip, Display does not panic
+    obs.eval(None);
+    let js = serde_json::to_string(&r).map_err(|e| Failure::new("C17:serde:result", format!("serialize failed: {e}")))?;
+    match serde_json::from_str::<BlockRanges>(&js) {
+        Ok(back) => check_eq(obs, "serde-roundtrip", &back, &r, ctx)?,
+        Err(e) => obs.fail("C17:serde:result", format!("own JSON {js} rejected: {e}; {}", ctx()))?,
+    }
+    let _ = format!("{r}");
+    Ok(())
+}
+
+// ------------------------------------------------------------------------------------------------
+// (a') exhaustive universe at the top of the u64 range: heights u64::MAX-7 ..= u64::MAX, interval model
+// ------------------------------------------------------------------------------------------------
+
+const TOPW: u32 = 8;
+const TOP_BASE: u128 = HMAX - (TOPW as u128 - 1);
+
+fn top_set(idx: u16) -> ISet {
+    ISet::normalise((0..TOPW as u128).filter(|i| idx >> i & 1 == 1).map(|i| (TOP_BASE + i, TOP_BASE + i)).collect())
+}
+
+fn top_case(idx: &u16, obs: &mut Obs) -> Result<(), Failure> {
+    let ms = top_set(*idx);
+    let r = build_from_model(&ms);
+    let m = *idx as u64;
+    let ctx = || format!("S={:?}", top_set(*idx).0);
+    let args: Vec<u64> = ((TOP_BASE - 2)..=HMAX).map(|x| x as u64).collect();
+    let off = |x: u64| x - (TOP_BASE - 2) as u64;
+    if ms.contains(HMAX) {
+        obs.label("u64-max-edge");
+    }
+    obs.eval(None);
+    check_value(obs, "construct", &r, &ms, ctx)?;
+    check_eq(obs, "len", r.len() as u128, ms.len(), ctx)?;
+    check_eq(obs, "is_empty", r.is_empty(), ms.is_empty(), ctx)?;
+    check_eq(obs, "head", r.head().map(|x| x as u128), ms.max(), ctx)?;
+    check_eq(obs, "tail", r.tail().map(|x| x as u128), ms.min(), ctx)?;
+    for &h in &args {
+        obs.eval((ms.runs_touching(h as u128, h as u128) > 0).then(|| dg(m, 33, off(h), 0)));
+        check_eq(obs, "contains", r.contains(h), ms.contains(h as u128), ctx)?;
+    }
+    for &a in &args {
+        for &b in &args {
+            let valid = a <= b;
+            let k = if valid { ms.runs_touching(a as u128, b as u128) } else { 0 };
+            for (op, opn) in [(34u64, "insert_relaxed"), (35u64, "remove_relaxed")] {
+                obs.eval((k > 0).then(|| dg(m, op, off(a), off(b))));
+                let mut x = r.clone();
+                let res = if op == 34 { x.insert_relaxed(a..=b) } else { x.remove_relaxed(a..=b) };
+                let c2 = || format!("S={:?} arg={a}..={b}", top_set(*idx).0);
+                if valid {
+                    if let Err(e) = &res {
+                        obs.fail(&format!("C17:{opn}:result"), format!("{opn} of a valid range failed: {e}; {}", c2()))?;
+                    }
+                    let want = if op == 34 { ms.insert(a as u128, b as u128) } else { ms.remove(a as u128, b as u128) };
+                    check_value(obs, opn, &x, &want, c2)?;
+                    if op == 34 && k >= 2 {
+                        obs.label("merge-three");
+                    }
+                    if op == 35 && ms.strictly_inside_run(a as u128, b as u128) {
+                        obs.label("split-middle");
+                    }
+                } else {
+                    match &res {
+                        Err(BlockRangesError::InvalidBlockRange(g)) if *g == (a..=b) => {}
+                        other => obs.fail(&format!("C17:{opn}:invalid-arg"), format!("{opn} of invalid {a}..={b} returned {other:?}; {}", c2()))?,
+                    }
+                    check_eq(obs, &format!("{opn}-invalid-unchanged"), &x, &r, c2)?;
+                }
+            }
+        }
+    }
+    for ti in 0..(1u16 << TOPW) {
+        let mt = top_set(ti);
+        let tr = build_from_model(&mt);
+        let c2 = || format!("S={:?} T={:?}", top_set(*idx).0, top_set(ti).0);
+        let uni = ms.union(&mt);
+        let int = ms.inter(&mt);
+        obs.eval((!ms.is_empty() && !mt.is_empty() && uni.0.len() < ms.0.len() + mt.0.len()).then(|| dg(m, 36, ti as u64, 0)));
+        check_value(obs, "union", &(r.clone() | &tr), &uni, c2)?;
+        obs.eval((!int.is_empty()).then(|| dg(m, 37, ti as u64, 0)));
+        check_value(obs, "difference", &(r.clone() - &tr), &ms.diff(&mt), c2)?;
+        obs.eval((!int.is_empty()).then(|| dg(m, 38, ti as u64, 0)));
+        check_value(obs, "intersection", &(r.clone() & &tr), &int, c2)?;
+    }
+    obs.eval(Some(dg(m, 39, 0, 0)));
+    let not = !r.clone();
+    check_value(obs, "complement", &not, &ms.complement(), ctx)?;
+    check_value(obs, "complement-twice", &!not, &ms, ctx)?;
+    for head in [true, false] {
+        let mut x = r.clone();
+        let mut mm = ms.clone();
+        loop {
+            obs.eval((!mm.is_empty()).then(|| dg(m, 40 + head as u64, mm.len() as u64, 0)));
+            let want = if head { mm.max() } else { mm.min() };
+            let got = if head { x.pop_head() } else { x.pop_tail() };
+            let opn = if head { "pop_head" } else { "pop_tail" };
+            check_eq(obs, opn, got.map(|v| v as u128), want, ctx)?;
+            if let Some(e) = want {
+                mm = mm.remove(e, e);
+            }
+            check_value(obs, opn, &x, &mm, ctx)?;
+            if want.is_none() {
+                break;
+            }
+        }
+    }
+    let ns: Vec<u64> = (0..=9u64).chain([1 << 63, u64::MAX - 9, u64::MAX - 8, u64::MAX - 7, u64::MAX - 2, u64::MAX - 1, u64::MAX]).collect();
+    for (i, &n) in ns.iter().enumerate() {
+        obs.eval((!ms.is_empty() && n > 0).then(|| dg(m, 42, i as u64, 0)));
+        headn_checked(obs, &r, n, &ms)?;
+        obs.eval((!ms.is_empty() && n > 0).then(|| dg(m, 43, i as u64, 0)));
+        tailn_checked(obs, &r, n, &ms)?;
+    }
+    obs.eval((!ms.is_empty()).then(|| dg(m, 44, 0, 0)));
+    check_value(obs, "edges", &hk::edges(&r), &ms.edges(), ctx)?;
+    for &h in &args {
+        let c2 = || format!("S={:?} h={h}", top_set(*idx).0);
+        obs.eval((!ms.is_empty()).then(|| dg(m, 45, off(h), 0)));
+        check_eq(obs, "left_of", hk::left_of(&r, h).map(|v| v as u128), ms.left_of(h as u128), c2)?;
+        obs.eval((!ms.is_empty()).then(|| dg(m, 46, off(h), 0)));
+        check_eq(obs, "right_of", hk::right_of(&r, h).map(|v| v as u128), ms.right_of(h as u128), c2)?;
+    }
+    obs.eval((ms.len() >= 2).then(|| dg(m, 47, 0, 0)));
+    check_partitions(obs, &r, &ms, ctx)?;
+    // single-range headn / tailn (what calculate_range_to_fetch uses), once per universe (idx 0 only)
+    if *idx == 0 {
+        for &a in &args {
+            for &b in &args {
+                let rng = a..=b;
+                let rm = range_as_iset(&rng);
+                for (i, &n) in ns.iter().enumerate() {
+                    for head in [true, false] {
+                        obs.eval((a <= b && n > 0).then(|| dg(off(a), 48 + head as u64, off(b), i as u64)));
+                        let got = lv_common::no_panic(|| if head { hk::range_headn(&rng, n) } else { hk::range_tailn(&rng, n) });
+                        let want = if head { rm.headn(n as u128) } else { rm.tailn(n as u128) };
+                        let sig = if head { "C17:headn" } else { "C17:tailn" };
+                        match got {
+                            Ok(g) if range_as_iset(&g) == want => {}
+                            Ok(g) => obs.fail(sig, format!("range {}({n}) of {a}..={b} = {g:?}, expected the elements {:?}", if head { "headn" } else { "tailn" }, want.0))?,
+                            Err(p) => obs.fail(sig, format!("range {}({n}) of {a}..={b} panicked: {p}", if head { "headn" } else { "tailn" }))?,
+                        }
+                    }
+                }
+            }
+        }
+    }
+    Ok(())
+}
+
+// ------------------------------------------------------------------------------------------------
+// (b) random histories over the full u64 range
+// ------------------------------------------------------------------------------------------------
+
+const REGS: usize = 4;
+
+#[derive(Clone, Debug, Serialize, Deserialize)]
+pub enum Val {
+    Abs(u64),
+    /// an edge (run start / end) of the register the operation works on, plus `d`
+    Near { sel: u16, d: i8 },
+}
+
+#[derive(Clone, Debug, Serialize, Deserialize)]
+pub enum Cnt {
+    Abs(u64),
+    /// len of the operand plus `d`
+    LenRel { d: i8 },
+}
+
+#[derive(Clone, Debug, Serialize, Deserialize)]
+pub enum Op {
+    Insert { r: u8, a: Val, b: Val, order: bool },
+    Remove { r: u8, a: Val, b: Val, order: bool },
+    Union { dst: u8, x: u8, y: u8 },
+    Diff { dst: u8, x: u8, y: u8 },
+    Inter { dst: u8, x: u8, y: u8 },
+    Not { dst: u8, x: u8 },
+    PopHead { r: u8 },
+    PopTail { r: u8 },
+    Headn { dst: u8, x: u8, n: Cnt },
+    Tailn { dst: u8, x: u8, n: Cnt },
+    Edges { dst: u8, x: u8 },
+    Partitions { x: u8, dl: u8, dr: u8 },
+    LeftOf { x: u8, h: Val },
+    RightOf { x: u8, h: Val },
+    Contains { x: u8, h: Val },
+    RangeHeadn { a: Val, b: Val, n: Cnt, x: u8 },
+    RangeTailn { a: Val, b: Val, n: Cnt, x: u8 },
+    Load { dst: u8, spec: RangesSpec },
+}
+
+#[derive(Clone, Debug, Serialize, Deserialize)]
+pub struct History {
+    pub init: Vec<RangesSpec>,
+    pub ops: Vec<Op>,
+}
+
+pub fn val_strategy(allow_zero: bool) -> impl Strategy<Value = Val> {
+    prop_oneof![
+        3 => height_strategy(allow_zero).prop_map(Val::Abs),
+        5 => (any::<u16>(), -3i8..=3).prop_map(|(sel, d)| Val::Near { sel, d }),
+    ]
+}
+
+pub fn cnt_strategy() -> impl Strategy<Value = Cnt> {
+    prop_oneof![
+        3 => count_strategy().prop_map(Cnt::Abs),
+        2 => (-2i8..=2).prop_map(|d| Cnt::LenRel { d }),
+    ]
+}
+
+fn op_strategy() -> impl Strategy<Value = Op> {
+    let reg = || 0u8..REGS as u8;
+    prop_oneof![
+        8 => (reg(), val_strategy(true), val_strategy(false), prop::bool::weighted(0.85)).prop_map(|(r, a, b, order)| Op::Insert { r, a, b, order }),
+        8 => (reg(), val_strategy(true), val_strategy(false), prop::bool::weighted(0.85)).prop_map(|(r, a, b, order)| Op::Remove { r, a, b, order }),
+        3 => (reg(), reg(), reg()).prop_map(|(dst, x, y)| Op::Union { dst, x, y }),
+        3 => (reg(), reg(), reg()).prop_map(|(dst, x, y)| Op::Diff { dst, x, y }),
+        3 => (reg(), reg(), reg()).prop_map(|(dst, x, y)| Op::Inter { dst, x, y }),
+        2 => (reg(), reg()).prop_map(|(dst, x)| Op::Not { dst, x }),
+        2 => reg().prop_map(|r| Op::PopHead { r }),
+        2 => reg().prop_map(|r| Op::PopTail { r }),
+        3 => (reg(), reg(), cnt_strategy()).prop_map(|(dst, x, n)| Op::Headn { dst, x, n }),
+        3 => (reg(), reg(), cnt_strategy()).prop_map(|(dst, x, n)| Op::Tailn { dst, x, n }),
+        1 => (reg(), reg()).prop_map(|(dst, x)| Op::Edges { dst, x }),
+        2 => (reg(), reg(), reg()).prop_map(|(x, dl, dr)| Op::Partitions { x, dl, dr }),
+        2 => (reg(), val_strategy(false)).prop_map(|(x, h)| Op::LeftOf { x, h }),
+        2 => (reg(), val_strategy(false)).prop_map(|(x, h)| Op::RightOf { x, h }),
+        2 => (reg(), val_strategy(true)).prop_map(|(x, h)| Op::Contains { x, h }),
+        1 => (val_strategy(false), val_strategy(false), cnt_strategy(), reg()).prop_map(|(a, b, n, x)| Op::RangeHeadn { a, b, n, x }),
+        1 => (val_strategy(false), val_strategy(false), cnt_strategy(), reg()).prop_map(|(a, b, n, x)| Op::RangeTailn { a, b, n, x }),
+        1 => (reg(), ranges_spec_strategy(5)).prop_map(|(dst, spec)| Op::Load { dst, spec }),
+    ]
+}
+
+fn history_strategy(min_ops: usize, max_ops: usize) -> impl Strategy<Value = History> {
+    (prop::collection::vec(ranges_spec_strategy(5), 0..=REGS), prop::collection::vec(op_strategy(), min_ops..=max_ops)).prop_map(|(init, ops)| History { init, ops })
+}
+
+pub fn resolve(v: &Val, m: &ISet, min: u64) -> u64 {
+    match v {
+        Val::Abs(x) => (*x).max(min),
+        Val::Near { sel, d } => {
+            let e = m.edge_points();
+            if e.is_empty() {
+                return (1 + d.unsigned_abs() as u64).max(min);
+            }
+            let p = e[pick(*sel, e.len())] as i128 + *d as i128;
+            (p.clamp(min as i128, HMAX as i128)) as u64
+        }
+    }
+}
+
+pub fn resolve_cnt(c: &Cnt, m: &ISet) -> u64 {
+    match c {
+        Cnt::Abs(x) => *x,
+        Cnt::LenRel { d } => (m.len() as i128 + *d as i128).clamp(0, HMAX as i128) as u64,
+    }
+}
+
+const HALF: u128 = 1u128 << 63;
+
+struct Machine {
+    regs: Vec<BlockRanges>,
+    model: Vec<ISet>,
+}
+
+impl Machine {
+    fn settle(&mut self, obs: &mut Obs, op: &str, dst: usize, got: BlockRanges, want: ISet, ctx: &dyn Fn() -> String) -> Result<(), Failure> {
+        check_value(obs, op, &got, &want, ctx)?;
+        // observers on the fresh value
+        check_eq(obs, "len", got.len() as u128, want.len(), ctx)?;
+        check_eq(obs, "is_empty", got.is_empty(), want.is_empty(), ctx)?;
+        check_eq(obs, "head", got.head().map(|x| x as u128), want.max(), ctx)?;
+        check_eq(obs, "tail", got.tail().map(|x| x as u128), want.min(), ctx)?;
+        if want.contains(HMAX) {
+            obs.label("u64-max-edge");
+        }
+        // keep the implementation's value only when it matched (after a KNOWN finding the model value is rebuilt)
+        if ISet::normalise(to_iset(&got).0) == want && invariant(&got).is_ok() {
+            self.regs[dst] = got;
+        } else {
+            self.regs[dst] = build_from_model(&want);
+        }
+        self.model[dst] = want;
+        Ok(())
+    }
+}
+
+fn history_case(h: &History, obs: &mut Obs) -> Result<(), Failure> {
+    let mut mc = Machine { regs: Vec::new(), model: Vec::new() };
+    for i in 0..REGS {
+        let m = h.init.get(i).map(build_ranges).unwrap_or_default();
+        mc.regs.push(build_from_model(&m));
+        mc.model.push(m);
+    }
+    for (step, op) in h.ops.iter().enumerate() {
+        let big = |m: &ISet| m.touches_high_half();
+        let d0 = digest_of(op);
+        let dig = |ms: &[&ISet]| {
+            let mut d = d0;
+            for m in ms {
+                d = d.rotate_left(17) ^ digest_of(&m.0);
+            }
+            d
+        };
+        match op {
+            Op::Insert { r, a, b, order } | Op::Remove { r, a, b, order } => {
+                let is_ins = matches!(op, Op::Insert { .. });
+                let opn = if is_ins { "insert_relaxed" } else { "remove_relaxed" };
+                let r = *r as usize;
+                let m = mc.model[r].clone();
+                let (mut a, mut b) = (resolve(a, &m, 0), resolve(b, &m, 1));
+                if *order && a > b {
+                    std::mem::swap(&mut a, &mut b);
+                }
+                if *order && a == 0 {
+                    a = 1;
+                }
+                let valid = a >= 1 && a <= b;
+                let k = if valid { m.runs_touching(a as u128, b as u128) } else { 0 };
+                let nt = valid && (k > 0 || b as u128 >= HALF || big(&m));
+                obs.eval(nt.then(|| dig(&[&m]) ^ a.rotate_left(7) ^ b));
+                let mut x = mc.regs[r].clone();
+                let res = if is_ins { x.insert_relaxed(a..=b) } else { x.remove_relaxed(a..=b) };
+                let ctx = || format!("step {step}: {opn}({a}..={b}) on {:?}", m.0);
+                if valid {
+                    if let Err(e) = &res {
+                        obs.fail(&format!("C17:{opn}:result"), format!("valid range rejected: {e}; {}", ctx()))?;
+                    }
+                    if b == u64::MAX || a == u64::MAX {
+                        obs.label("u64-max-edge");
+                    }
+                    if is_ins {
+                        if k >= 2 {
+                            obs.label("merge-three");
+                        }
+                        if k == 1 {
+                            obs.label("insert-touches-one-run");
+                        }
+                    } else {
+                        if m.strictly_inside_run(a as u128, b as u128) {
+                            obs.label("split-middle");
+                        }
+                        if k >= 2 {
+                            obs.label("remove-spans-runs");
+                        }
+                    }
+                    let want = if is_ins { m.insert(a as u128, b as u128) } else { m.remove(a as u128, b as u128) };
+                    mc.settle(obs, opn, r, x, want, &ctx)?;
+                } else {
+                    obs.label("invalid-range-arg");
+                    match &res {
+                        Err(BlockRangesError::InvalidBlockRange(g)) if *g == (a..=b) => {}
+                        other => obs.fail(&format!("C17:{opn}:invalid-arg"), format!("invalid range returned {other:?}; {}", ctx()))?,
+                    }
+                    check_eq(obs, &format!("{opn}-invalid-unchanged"), &x, &mc.regs[r], ctx)?;
+                }
+            }
+            Op::Union { dst, x, y } | Op::Diff { dst, x, y } | Op::Inter { dst, x, y } => {
+                let (dst, x, y) = (*dst as usize, *x as usize, *y as usize);
+                let (mx, my) = (mc.model[x].clone(), mc.model[y].clone());
+                let (opn, want) = match op {
+                    Op::Union { .. } => ("union", mx.union(&my)),
+                    Op::Diff { .. } => ("difference", mx.diff(&my)),
+                    _ => ("intersection", mx.inter(&my)),
+                };
+                let interacts = !mx.is_empty()
+                    && !my.is_empty()
+                    && if opn == "union" { want.0.len() < mx.0.len() + my.0.len() } else { !mx.inter(&my).is_empty() };
+                let nt = interacts || ((big(&mx) || big(&my)) && !mx.is_empty() && !my.is_empty());
+                obs.eval(nt.then(|| dig(&[&mx, &my])));
+                obs.label(opn);
+                let (rx, ry) = (mc.regs[x].clone(), &mc.regs[y]);
+                let got = match op {
+                    Op::Union { .. } => {
+                        if step % 2 == 0 {
+                            rx + ry
+                        } else {
+                            rx | ry
+                        }
+                    }
+                    Op::Diff { .. } => rx - ry,
+                    _ => rx & ry,
+                };
+                let ctx = || format!("step {step}: {opn} of {:?} and {:?}", mx.0, my.0);
+                mc.settle(obs, opn, dst, got, want, &ctx)?;
+            }
+            Op::Not { dst, x } => {
+                let (dst, x) = (*dst as usize, *x as usize);
+                let mx = mc.model[x].clone();
+                obs.eval(Some(dig(&[&mx])));
+                obs.label("complement");
+                let got = !mc.regs[x].clone();
+                let ctx = || format!("step {step}: complement of {:?}", mx.0);
+                mc.settle(obs, "complement", dst, got, mx.complement(), &ctx)?;
+            }
+            Op::PopHead { r } | Op::PopTail { r } => {
+                let is_head = matches!(op, Op::PopHead { .. });
+                let opn = if is_head { "pop_head" } else { "pop_tail" };
+                let r = *r as usize;
+                let m = mc.model[r].clone();
+                obs.eval((!m.is_empty() && big(&m)).then(|| dig(&[&m])));
+                let mut x = mc.regs[r].clone();
+                let got = if is_head { x.pop_head() } else { x.pop_tail() };
+                let want_el = if is_head { m.max() } else { m.min() };
+                let ctx = || format!("step {step}: {opn} on {:?}", m.0);
+                check_eq(obs, opn, got.map(|v| v as u128), want_el, ctx)?;
+                let want = match want_el {
+                    Some(e) => m.remove(e, e),
+                    None => m.clone(),
+                };
+                mc.settle(obs, opn, r, x, want, &ctx)?;
+            }
+            Op::Headn { dst, x, n } | Op::Tailn { dst, x, n } => {
+                let is_head = matches!(op, Op::Headn { .. });
+                let (dst, x) = (*dst as usize, *x as usize);
+                let m = mc.model[x].clone();
+                let n = resolve_cnt(n, &m);
+                let cut = n > 0 && (n as u128) < m.len();
+                obs.eval((cut || (big(&m) && n > 0)).then(|| dig(&[&m]) ^ n));
+                if cut {
+                    obs.label(if is_head { "headn-cuts" } else { "tailn-cuts" });
+                }
+                if n as u128 >= HALF && !m.is_empty() {
+                    obs.label("headn-tailn-huge-n");
+                }
+                let src = mc.regs[x].clone();
+                let got = if is_head { headn_checked(obs, &src, n, &m)? } else { tailn_checked(obs, &src, n, &m)? };
+                let want = if is_head { m.headn(n as u128) } else { m.tailn(n as u128) };
+                let got = got.unwrap_or_else(|| build_from_model(&want));
+                let ctx = || format!("step {step}: {}({n}) of {:?}", if is_head { "headn" } else { "tailn" }, m.0);
+                mc.settle(obs, if is_head { "headn" } else { "tailn" }, dst, got, want, &ctx)?;
+            }
+            Op::Edges { dst, x } => {
+                let (dst, x) = (*dst as usize, *x as usize);
+                let m = mc.model[x].clone();
+                obs.eval((!m.is_empty()).then(|| dig(&[&m])));
+                let got = hk::edges(&mc.regs[x]);
+                let ctx = || format!("step {step}: edges of {:?}", m.0);
+                mc.settle(obs, "edges", dst, got, m.edges(), &ctx)?;
+            }
+            Op::Partitions { x, dl, dr } => {
+                let (x, dl, dr) = (*x as usize, *dl as usize, *dr as usize);
+                let m = mc.model[x].clone();
+                obs.eval((m.len() >= 2).then(|| dig(&[&m])));
+                obs.label("partitions");
+                let src = mc.regs[x].clone();
+                let ctx = || format!("step {step}: partitions of {:?}", m.0);
+                if let Some((l, _, r)) = check_partitions(obs, &src, &m, ctx)? {
+                    let (lm, rm) = (ISet::normalise(to_iset(&l).0), ISet::normalise(to_iset(&r).0));
+                    mc.settle(obs, "partitions-left", dl, l, lm, &ctx)?;
+                    if dr != dl {
+                        mc.settle(obs, "partitions-right", dr, r, rm, &ctx)?;
+                    }
+                }
+            }
+            Op::LeftOf { x, h } | Op::RightOf { x, h } => {
+                let is_left = matches!(op, Op::LeftOf { .. });
+                let x = *x as usize;
+                let m = &mc.model[x];
+                let h = resolve(h, m, 1);
+                obs.eval((!m.is_empty()).then(|| dig(&[m]) ^ h));
+                let ctx = || format!("step {step}: {}({h}) on {:?}", if is_left { "left_of" } else { "right_of" }, m.0);
+                if h == u64::MAX {
+                    obs.label("u64-max-edge");
+                }
+                if is_left {
+                    check_eq(obs, "left_of", hk::left_of(&mc.regs[x], h).map(|v| v as u128), m.left_of(h as u128), ctx)?;
+                } else {
+                    check_eq(obs, "right_of", hk::right_of(&mc.regs[x], h).map(|v| v as u128), m.right_of(h as u128), ctx)?;
+                }
+            }
+            Op::Contains { x, h } => {
+                let x = *x as usize;
+                let m = &mc.model[x];
+                let h = resolve(h, m, 0);
+                obs.eval((m.runs_touching(h as u128, h as u128) > 0).then(|| dig(&[m]) ^ h));
+                let ctx = || format!("step {step}: contains({h}) on {:?}", m.0);
+                check_eq(obs, "contains", mc.regs[x].contains(h), m.contains(h as u128), ctx)?;
+            }
+            Op::RangeHeadn { a, b, n, x } | Op::RangeTailn { a, b, n, x } => {
+                let is_head = matches!(op, Op::RangeHeadn { .. });
+                let m = &mc.model[*x as usize];
+                let (a, b) = (resolve(a, m, 1), resolve(b, m, 1));
+                let rng = a..=b;
+                let rm = range_as_iset(&rng);
+                let n = resolve_cnt(n, &rm);
+                obs.eval((a <= b && n > 0).then(|| d0 ^ a.rotate_left(9) ^ b.rotate_left(3) ^ n));
+                let opn = if is_head { "range-headn" } else { "range-tailn" };
+                obs.label(opn);
+                if b == u64::MAX && a <= b {
+                    obs.label("u64-max-edge");
+                }
+                let got = lv_common::no_panic(|| if is_head { hk::range_headn(&rng, n) } else { hk::range_tailn(&rng, n) });
+                let want = if is_head { rm.headn(n as u128) } else { rm.tailn(n as u128) };
+                let sig = if is_head { "C17:headn" } else { "C17:tailn" };
+                match got {
+                    Ok(g) => {
+                        if range_as_iset(&g) != want {
+                            obs.fail(sig, format!("step {step}: {opn}({n}) of {a}..={b} = {g:?}, expected the elements {:?}", want.0))?;
+                        }
+                    }
+                    Err(p) => obs.fail(sig, format!("step {step}: {opn}({n}) of {a}..={b} panicked: {p}"))?,
+                }
+            }
+            Op::Load { dst, spec } => {
+                let m = build_ranges(spec);
+                let dst = *dst as usize;
+                obs.eval(None);
+                // canonical list through from_vec (documented precondition: canonical input) must equal
+                // the value built by insertions
+                let built = build_from_model(&m);
+                let fv = BlockRanges::from_vec(m.0.iter().map(|&(a, b)| a as u64..=b as u64).collect());
+                let ctx = || format!("step {step}: load {:?}", m.0);
+                match fv {
+                    Ok(v) => check_eq(obs, "from_vec", &v, &built, ctx)?,
+                    Err(e) => obs.fail("C17:from_vec:result", format!("from_vec rejected canonical list: {e}; {}", ctx()))?,
+                }
+                mc.settle(obs, "construct", dst, built, m.clone(), &ctx)?;
+            }
+        }
+    }
+    Ok(())
+}
+
+pub fn run(ctx: &mut Ctx) {
+    ctx.assume("values reach BlockRanges only through its own operations or from_vec/Deserialize of canonical (sorted, non-adjacent) lists; left_of(0)/right_of(0) are not generated (debug_assert precondition: 0 is not a height)");
+    ctx.assume("oracle: u64 bitmask (small universe) and an independent u128 interval-list model (lv_gen::ranges::ISet, self-tested against the bitmask)");
+    ctx.essential(&["merge-three", "split-middle", "u64-max-edge"]);
+
+    ctx.enumerate(
+        "small-universe",
+        "every subset S of {1..10} (1024 items) x {construction 4 ways, contains h in 0..=12, len, is_empty, head, tail, insert_relaxed/remove_relaxed of every [a,b] with a,b in 0..=11 incl. invalid, union/difference/intersection with every subset T (1024^2 pairs), complement, pop_head/pop_tail to empty, iterator forward/backward/alternating, headn/tailn n in 0..=12, edges, left_of/right_of h in 1..=11, partitions (iterated), serde round trip}. Non-trivial = the argument overlaps or touches an existing run of S (insert/remove/union), overlaps S (difference/intersection), cuts inside S (headn/tailn with 0<n<|S|), or S non-empty (pop, complement, edges, left_of/right_of, partitions with |S|>=2); distinct by (S, operation, argument)",
+        true,
+        (0u16..(1 << U)).collect::<Vec<_>>(),
+        small_case,
+    );
+
+    ctx.enumerate(
+        "top-universe",
+        "every subset S of {u64::MAX-7..=u64::MAX} (256 items) x {construction, len/head/tail, contains, insert/remove of every [a,b] with a,b in u64::MAX-9..=u64::MAX incl. a>b, union/difference/intersection with every subset T (256^2), complement (twice), pops to empty, headn/tailn for n in 0..=9 and {2^63, u64::MAX-9..-7, u64::MAX-2..u64::MAX}, edges, left_of/right_of, partitions; single-range headn/tailn for every [a,b] x n}, judged by the u128 interval model. Non-trivial as in small-universe; distinct by (S, operation, argument)",
+        true,
+        (0u16..(1 << TOPW)).collect::<Vec<_>>(),
+        top_case,
+    );
+
+    let cases = ctx.tier.pick(8000, 200_000);
+    let (lo, hi) = (1usize, 400usize);
+    ctx.proptest(
+        "histories",
+        "random histories of 1..400 operations (mean 200; minimum 1 so that failing histories shrink) over 4 registers of u64-wide sets (boundary-biased values 1, 2, 2^63(+-), u64::MAX(-k), edges of the current value +-3, random; operands are results of earlier operations); every result compared with the u128 interval model, representation invariant after every step. Non-trivial = argument touches/bridges/splits existing runs, operands interact, or a value >= 2^63 is involved; distinct by (operation, operand sets, resolved arguments)",
+        cases,
+        move || history_strategy(lo, hi),
+        history_case,
+    );
 }
